@@ -58,7 +58,7 @@ def generate(rng, tier):
     for i in range(rng.randrange(1, 6)):
         k = rng.choice(["str", "sum", "var", "macro", "loop", "nonl", "name", "argc"])
         lines.append({"k": k, "a": rng.randrange(100), "b": rng.randrange(100)})
-    end = rng.choice(["none", "none", "exit", "exit0", "exitmsg", "raise", "reader", "compile", "none"])
+    end = rng.choice(["none", "none", "exit", "exit0", "exitmsg", "raise", "reader", "compile", "none", "raise_os", "raise_os"])
     args = []
     for _ in range(rng.choice([0, 1, 2, 3, 4])):
         args.append(rng.choice(OPTIONISH) if rng.random() < 0.5 else rng.choice(PLAIN))
@@ -66,7 +66,8 @@ def generate(rng, tier):
     order = ["c", "file", "stdin", "m"]
     rng.shuffle(order)
     return {"lines": lines, "end": end, "code": rng.choice([2, 3, 7, 42, 255]), "args": args, "pre": pre, "order": order,
-            "file_as": rng.choice(["plain", "dot", "abs", "dashdash"])}
+            "file_as": rng.choice(["plain", "dot", "abs", "dashdash"]),
+            "spell": rng.choice(["plain", "plain", "cluster", "attached", "attached_eq"])}
 
 
 def render(desc):
@@ -115,13 +116,18 @@ def render(desc):
     elif e == "raise":
         src.append('(raise (ValueError "boom"))')
         status = 1
+    elif e == "raise_os":
+        # exceptions that the command line itself also knows how to raise / handle
+        src.append(["(open \"/nonexistent-dir/zz\")", "(raise (FileNotFoundError 2 \"nope\" \"other.hy\"))", "(raise (SystemError \"s\"))",
+                    "(raise (KeyboardInterrupt))", "(raise (ImportError \"no mod\"))", "(import no-such-module-zz)"][desc["code"] % 6])
+        status = 1
     elif e == "reader":
         src.append('(print "unclosed"')
         status, early = 1, True
     elif e == "compile":
         src.append("(if)")
         status, early = 1, True
-    if e in ("exit", "exit0", "exitmsg", "raise", "none"):
+    if e in ("exit", "exit0", "exitmsg", "raise", "none", "raise_os"):
         src.append('(print "unreachable")' if e != "none" else '(print "done")')
         if e == "none":
             out.append("done")
@@ -151,8 +157,18 @@ def execute(desc):
             probes["invocations"] += 1
             stdin = ""
             fa = desc["file_as"]
+            sp = desc.get("spell", "plain")
+            dwb = "-B" in pre
             if mode == "c":
-                argv = ["hy"] + pre + ["-c", text] + args
+                if sp == "cluster":
+                    argv = ["hy"] + pre + ["-Bc", text] + args
+                    dwb = True
+                elif sp == "attached":
+                    argv = ["hy"] + pre + ["-c" + text] + args
+                elif sp == "attached_eq":
+                    argv = ["hy"] + pre + ["-c=" + text] + args
+                else:
+                    argv = ["hy"] + pre + ["-c", text] + args
                 a0 = "-c"
             elif mode == "file":
                 given = {"plain": modname + ".hy", "dot": "./" + modname + ".hy", "abs": path, "dashdash": modname + ".hy"}[fa]
@@ -163,7 +179,15 @@ def execute(desc):
                 a0 = "-"
                 stdin = text
             else:
-                argv = ["hy"] + pre + ["-m", modname] + args
+                if sp == "cluster":
+                    argv = ["hy"] + pre + ["-Bm", modname] + args
+                    dwb = True
+                elif sp == "attached":
+                    argv = ["hy"] + pre + ["-m" + modname] + args
+                elif sp == "attached_eq":
+                    argv = ["hy"] + pre + ["-m=" + modname] + args
+                else:
+                    argv = ["hy"] + pre + ["-m", modname] + args
                 a0 = path
             status, out, err = cli.run_hy(argv, stdin, cwd=root, timeout=90)
             if status is None:
@@ -202,7 +226,7 @@ def execute(desc):
                 if saw0 != a0:
                     viols.append({"clause": "argv0", "sig": sig,
                                   "detail": {"mode": mode, "program_saw": head.get("ARGV0"), "documented": a0}})
-                if head.get("DWB") != repr("-B" in pre):
+                if head.get("DWB") != repr(dwb):
                     viols.append({"clause": "option_before_mode_switch", "sig": sig,
                                   "detail": {"mode": mode, "pre": pre, "dont_write_bytecode": head.get("DWB")}})
             if exp_status != 0 and desc["end"] != "exit" and not err.strip():
@@ -249,6 +273,8 @@ def shrink(desc):
         yield dict(desc, end="none")
     if desc["file_as"] != "plain":
         yield dict(desc, file_as="plain")
+    if desc.get("spell", "plain") != "plain":
+        yield dict(desc, spell="plain")
     for i in range(len(desc["order"])):
         if len(desc["order"]) > 1:
             yield dict(desc, order=desc["order"][:i] + desc["order"][i + 1:])
